@@ -50,6 +50,7 @@ type btpl struct {
 	Name      string
 	Committee bool
 	Prog      string // U program (AST rendering); its last op is the failing one unless Halting
+	Prefix    string // the non-faulting variant used for the non-vacuity run, if it is not "Prog without its last op"
 	Halting   bool
 	// Raw builds (faulting script, the same without the fault) for non-AST templates.
 	Raw func(rg *rig) (fault, prefix []byte, err error)
@@ -116,6 +117,20 @@ func btemplates(thorough bool) []btpl {
 			return chainx.ScriptThen(s, opcode.PUSHF, opcode.ASSERT), s, nil
 		}},
 		{Name: "out-of-gas", Prog: "A[EPXBf[EP]$gC[E]EPX]", GasCut: true},
+		// the sender of the faulting transaction is itself a receiver in the rolled-back script:
+		// only the fees may leave its balance (GAS from a contract, the GAS bonus minted by moving its NEO)
+		{Name: "pays-sender-abort", Raw: func(rg *rig) ([]byte, []byte, error) {
+			return withFault(rg.w.hashes[pA], abort, ucall(gas, "transfer", rg.w.hashes[pA].BytesBE(), acc(1), 7, nil),
+				ucall(neo, "transfer", acc(1), acc(2), 1, nil), ucall(neo, "transfer", acc(1), acc(1), 0, nil), uput("v", "4"))
+		}},
+		{Name: "pays-sender-callee-throws", Raw: func(rg *rig) ([]byte, []byte, error) {
+			pay := []any{chainx.OpRun, rg.w.hashes[pB].BytesBE(), 15, []any{ucall(gas, "transfer", rg.w.hashes[pB].BytesBE(), acc(1), 9, nil), uput("v", "5")}}
+			return withFault(rg.w.hashes[pA], throw, pay)
+		}},
+		// hand-assembled entry scripts: handlers in every state when the transaction faults late
+		{Name: "handler-script-abort", Prog: "H[{Bf[EX]Cf[E!]|Bf[E]|$sB[E]}Bf[P]#]"},
+		{Name: "handler-script-rethrow-after-finally", Prog: "H[{Bf[EX]{Cf[E]!||Bf[E]}|$sC[E]!|Bf[P]}]", Prefix: "H[{Bf[EX]{Cf[E]!||Bf[E]}|$sC[E]|Bf[P]}]"},
+		{Name: "handler-script-pending-lost", Prog: "H[Bf[E]{Cf[EX]!||Af[T{!}{}]}]", Prefix: "H[Bf[E]{Cf[EX]||Af[T{!}{}]}]"},
 		{Name: "setfee-caught-then-abort", Committee: true, Prog: "A[T{Bf[F!]}{}FE#]"},
 		// halting templates: the replica must equal the model and differ from the twin only where the model says
 		{Name: "halt-plain", Halting: true, Prog: "A[EPX]"},
@@ -124,6 +139,7 @@ func btemplates(thorough bool) []btpl {
 		{Name: "halt-neo-callback", Halting: true, Prog: "A[$nB[E]X]"},
 		{Name: "halt-setfee-rolled-back", Halting: true, Committee: true, Prog: "A[T{Bf[F!]}{}E]"},
 		{Name: "halt-setfee", Halting: true, Committee: true, Prog: "A[FT{Cf[$gB[E]!]}{}]"},
+		{Name: "halt-handler-script", Halting: true, Prog: "H[{Bf[EX]Cf[E!]|Bf[E]{Cf[P!]|$sB[E]}|$sB[E]}Bf[P]]"},
 	}
 	_ = thorough
 	return ts
@@ -146,7 +162,8 @@ func (w *world) udBytes() (mb, nb []byte, err error) {
 	return
 }
 
-var positions = []string{"only", "first", "middle", "last", "after-writers"}
+// same-sender: like middle, but the neighbours are sent (and paid) by the sender of T
+var positions = []string{"only", "first", "middle", "last", "after-writers", "same-sender"}
 
 const (
 	neighbourA = "A[PEX$gB[P]]"
@@ -262,7 +279,12 @@ func (rg *rig) buildT(t btpl) (fault, prefix *transaction.Transaction, signers [
 	default:
 		ops := mustParse(t.Prog)
 		fs = rg.w.script(ops)
-		if !t.Halting && !t.GasCut {
+		if t.Prefix != "" {
+			ps = rg.w.script(mustParse(t.Prefix))
+		} else if !t.Halting && !t.GasCut && isHand(ops) {
+			b := ops[0].Body
+			ps = rg.w.script([]Op{{K: 'S', Body: b[:len(b)-1]}})
+		} else if !t.Halting && !t.GasCut {
 			ps = rg.w.script(ops[:len(ops)-1])
 		} else {
 			ps = fs
@@ -317,13 +339,17 @@ func (ba *batomic) run(bc bcase) (what, detail []string, err error) {
 		return nil, nil, err
 	}
 	s3 := []neotest.Signer{chainx.Signer(3)}
+	same := bc.Pos == "same-sender"
+	if same {
+		s3 = []neotest.Signer{chainx.Signer(1)}
+	}
 	var a, cc *transaction.Transaction
-	if bc.Pos == "middle" || bc.Pos == "last" {
+	if bc.Pos == "middle" || bc.Pos == "last" || same {
 		if a, err = r1.n.MakeTx(w.script(mustParse(neighbourA)), s3, chainx.SysFee(sysFee)); err != nil {
 			return nil, nil, err
 		}
 	}
-	if bc.Pos == "middle" || bc.Pos == "first" || (bc.Pos == "after-writers" && !bc.Tpl.Halting) {
+	if bc.Pos == "middle" || bc.Pos == "first" || same || (bc.Pos == "after-writers" && !bc.Tpl.Halting) {
 		if cc, err = r1.n.MakeTx(w.script(mustParse(neighbourC)), s3, chainx.SysFee(sysFee)); err != nil {
 			return nil, nil, err
 		}
@@ -452,6 +478,9 @@ func (ba *batomic) run(bc bcase) (what, detail []string, err error) {
 			return wh, d, nil
 		}
 		fees := T.SystemFee + T.NetworkFee
+		if same {
+			fees += a.SystemFee + a.NetworkFee + cc.SystemFee + cc.NetworkFee
+		}
 		for i, pair := range []struct {
 			rg *rig
 			st *State
